@@ -233,6 +233,11 @@ package vm
 //@ loop 0 invariant allGoOn()
 // C04: the loop body runs in a fresh child of the scope of the loop statement
 //@ callsite (*runInfoStruct).runSingleStmt * [C04] samescope: runInfo.env == old(runInfo.env)
+// C08: the elements are presented in index order, one body run each: the k-th run sees element k (unwrapped), and a loop
+// that was not left by break/return/error has visited every element
+//@ loop 0 invariant [C08] visited: ncalls() == i && 0 <= i && i <= rvLen(value)
+//@ callsite (*Env).DefineValue * [C08] kthelem: ncalls() == i && arg1 == stmt.Vars[0] && arg2 == ite(rvKind(unwrap(rvIndexV(value, i))) == reflect.Ptr, rvElem(unwrap(rvIndexV(value, i))), unwrap(rvIndexV(value, i)))
+//@ ensures [C08] allelems: runInfo.err == nil && !lastBody(ErrBreak) ==> ncalls() == rvLen(value)
 
 //@ func (*runInfoStruct).runForMapStmt
 //@ props C04 C08 C02
@@ -284,6 +289,9 @@ package vm
 //@ ensures [C08] returns: ncalls() >= 2 && lastBody(ErrReturn) ==> runInfo.err == ErrReturn && runInfo.rv == res2(ncalls()-1)
 //@ ensures [C08] breaks: ncalls() >= 2 && lastBody(ErrBreak) ==> runInfo.err == nil && runInfo.rv == nilValue
 //@ loop 0 invariant forall k int :: 1 <= k && k < ncalls() ==> goesOn(k)
+// C08: the post expression runs after every body run that went on - also after `continue` - before anything else
+//@ ensures [C08] postruns: forall k int :: ite(stmt.Stmt1 != nil, 1, 0) <= k && k < ncalls() && calleeIs(k, "runSingleStmt") && goesOn(k) && stmt.Expr3 != nil ==> k + 1 < ncalls() && calleeIs(k+1, "invokeExpr") && arg(k+1) == stmt.Expr3
+//@ loop 0 invariant post: ncalls() >= ite(stmt.Stmt1 != nil, 1, 0) && (forall k int :: ite(stmt.Stmt1 != nil, 1, 0) <= k && k < ncalls() && calleeIs(k, "runSingleStmt") && stmt.Expr3 != nil ==> k + 1 < ncalls() && calleeIs(k+1, "invokeExpr") && arg(k+1) == stmt.Expr3)
 // C04: the loop body runs in a fresh child of the scope of the loop statement
 //@ callsite (*runInfoStruct).runSingleStmt * [C04] childscope: fresh(runInfo.env) && runInfo.env.parent == old(runInfo.env)
 
@@ -305,6 +313,14 @@ package vm
 //@ loop 0 invariant actInv(runInfo) && len(rvs) == len(stmt.RHSS) && runInfo.err == nil
 //@ loop 1 invariant actInv(runInfo) && runInfo.err == nil
 //@ loop 2 invariant actInv(runInfo) && runInfo.err == nil
+// C07: a (multi-)assignment evaluates all right-hand sides first, each once, left to right (only then are targets assigned),
+// and stops at the first failure
+//@ ensures [C07] rhsorder: forall k int :: 0 <= k && k < ncalls() && k < len(stmt.RHSS) ==> calleeIs(k, "invokeExpr") && arg(k) == stmt.RHSS[k]
+//@ ensures [C07] rhsonly: forall k int :: 0 <= k && k < ncalls() && calleeIs(k, "invokeExpr") ==> k < len(stmt.RHSS)
+//@ ensures [C07] stops: okButLast()
+//@ loop 1 invariant [C07] after1: ncalls() >= len(stmt.RHSS) && len(rvs) == len(stmt.RHSS) && (forall k int :: 0 <= k && k < ncalls() ==> res(k) == nil && ite(k < len(stmt.RHSS), calleeIs(k, "invokeExpr") && arg(k) == stmt.RHSS[k], calleeIs(k, "invokeLetExpr")))
+//@ loop 2 invariant [C07] after2: ncalls() >= len(stmt.RHSS) && len(rvs) == len(stmt.RHSS) && (forall k int :: 0 <= k && k < ncalls() ==> res(k) == nil && ite(k < len(stmt.RHSS), calleeIs(k, "invokeExpr") && arg(k) == stmt.RHSS[k], calleeIs(k, "invokeLetExpr")))
+//@ loop 0 invariant [C07] rhs: ncalls() == rangeindex + 1 && rangeindex < len(stmt.RHSS) && (forall k int :: 0 <= k && k < ncalls() ==> calleeIs(k, "invokeExpr") && arg(k) == stmt.RHSS[k] && res(k) == nil)
 
 //@ func (*runInfoStruct).runLetMapItemStmt
 //@ props C04 C08 C02
@@ -353,6 +369,13 @@ package vm
 //@ like template.evalStmt
 //@ requires stmt != nil
 //@ ensures [C08] nosentinel: runInfo.err != ErrBreak && runInfo.err != ErrContinue && runInfo.err != ErrReturn
+// C09: a defer statement evaluates the function and its arguments NOW (makeCallArgs, in the current scope) and registers
+// exactly one call - that function with exactly those argument values - after the calls registered before; it runs
+// nothing; if anything fails nothing is registered
+//@ traces makeCallArgs
+//@ ensures [C09] registered: runInfo.err == nil ==> ncalls() >= 1 && calleeIs(ncalls()-1, "makeCallArgs") && res(ncalls()-1) == nil && len(runInfo.defers) == len(old(runInfo.defers)) + 1 && runInfo.defers[len(runInfo.defers)-1].args == res2(ncalls()-1) && (runInfo.defers[len(runInfo.defers)-1].callSlice == (res3(ncalls()-1) == 1)) && rvKind(runInfo.defers[len(runInfo.defers)-1].fn) == reflect.Func
+//@ ensures [C09] earlier: runInfo.err == nil ==> (forall k int :: 0 <= k && k < len(old(runInfo.defers)) ==> runInfo.defers[k].fn == old(runInfo.defers[k].fn) && runInfo.defers[k].args == old(runInfo.defers[k].args) && runInfo.defers[k].callSlice == old(runInfo.defers[k].callSlice))
+//@ ensures [C09] notregistered: runInfo.err != nil ==> runInfo.defers == old(runInfo.defers)
 
 //@ func (*runInfoStruct).runDeleteStmt
 //@ props C04 C08 C02
